@@ -13,7 +13,10 @@ mkdir -p $M
 rsync -a --delete --exclude target /verif/altsim/ $M/altsim/
 sed -i "s|path = \"/repo/rust/altrios-core\"|path = \"$W/rust/altrios-core\"|" $M/altsim/Cargo.toml
 rm -rf $M/known_findings $M/replays; cp -r /verif/known_findings $M/; cp /verif/known_findings.json $M/
-( cd $M/altsim && CARGO_NET_OFFLINE=true cargo build --offline --quiet 2>&1 | grep -E "^error" -A8 ) 
+if ! ( cd $M/altsim && CARGO_NET_OFFLINE=true cargo build --offline --quiet 2>$M/build.log ); then
+  grep -E "^error" -A8 $M/build.log | head -40; echo "ERROR  build failed (harness or patched repo does not compile)"
+  ( cd $W && git checkout -q -f --detach "$head" && git clean -fdq rust/altrios-core/src rust/altrios-core/tests ); exit 2
+fi
 for p in "$@"; do
   out=$(ALTSIM_ROOT=$M $M/altsim/target/debug/altsim check "$p" --tier quick 2>&1); rc=$?
   case $rc in
